@@ -84,7 +84,7 @@ class Gen:
         if self.cfg["adversarial_uris"] and n >= 2 and r.random() < 0.8:
             # at least two namespaces of one collision group, the rest from the whole pool
             grp = r.choice(COLLISION_GROUPS)
-            k = min(len(grp), r.randrange(2, n + 1))
+            k = min(len(grp), r.randrange(2, n + 1) if r.random() < 0.6 else n)
             uris = r.sample(grp, k)
             rest = [u for u in pool if u not in uris]
             uris += r.sample(rest, n - k)
@@ -400,6 +400,11 @@ class Gen:
             content.attrs = []
         if base is not None and content.attrs:
             self.features.add("extension-attributes")
+            import random as _random
+            if _random.Random("ext-attrs-only:" + nm.xml).random() < self.cfg.get("p_ext_attrs_only", 0.25):
+                # <extension> with attribute children only: no (not even an empty) sequence
+                content.group = None
+                self.features.add("extension-attributes-without-sequence")
         return ComplexType(nm, content, base, self.doc(), fidx)
 
     def make_gelement(self, fidx, taken_elems):
@@ -576,7 +581,7 @@ class Gen:
                         self.features.add("explicit-default-occurs")
                     if it.kind == "element" and it.type.builtin and r2.random() < self.cfg.get("p_default_value", 0.15):
                         # a default value says what an *empty* element means; it does not make the element optional
-                        it.default = default_lexical(it.type.name)
+                        it.default = default_lexical(it.type.name, r2.random())
                         if it.default is not None:
                             self.features.add("element-default-value")
 
@@ -590,7 +595,7 @@ class Gen:
                 for a in content.attrs:
                     a.explicit = r2.random() < p
                     if not a.required and a.type.builtin and r2.random() < self.cfg.get("p_default_value", 0.15):
-                        a.default = default_lexical(a.type.name)
+                        a.default = default_lexical(a.type.name, r2.random())
 
     def add_decoys(self):
         """Name-collision decoys (C09): for a global element that is referred to by ref= from its own file, another type of that
@@ -732,6 +737,21 @@ class Gen:
                     else:
                         headers.append(nm)
                 r.shuffle(headers)
+                import random as _random
+                r4 = _random.Random("part-cross:" + "|".join(pt.name.xml for pt in parts))
+                if len(parts) >= 2 and r4.random() < self.cfg.get("p_part_element_cross", 0.25):
+                    # a part that is called like the *element* of another part of the same message: a part reference in the
+                    # binding names parts, never elements
+                    i, j = r4.sample(range(len(parts)), 2)
+                    en = parts[j].element.comp.name
+                    cand = Name(en.words, en.style, en.literal)
+                    if cand.snake not in {pt.name.snake for pt in parts}:
+                        old_name = parts[i].name
+                        parts[i].name = cand
+                        if body_part is old_name:
+                            body_part = cand
+                        headers = [cand if h is old_name else h for h in headers]
+                        self.features.add("part-named-like-another-parts-element")
                 return Message(names.fresh(msg_names), parts), body_part, headers
 
             nh_in = r.randrange(cfg["headers"][0], cfg["headers"][1] + 1)
@@ -837,19 +857,25 @@ def flat_member_snakes(c):
     return [m["name"].snake for m in flat_members(c)]
 
 
-def default_lexical(builtin):
+def default_lexical(builtin, pick=None):
     """A valid default value for a builtin, or None for families not bothered with."""
     c = BUILTINS.get(builtin)
+    import random as _random
+    k = _random.Random("default:" + builtin).random() if pick is None else pick
     if builtin in ("string", "normalizedString"):
-        return "n/a"
-    if builtin in ("negativeInteger", "nonPositiveInteger"):
+        return "n/a" if k < 0.7 else ""
+    if builtin == "negativeInteger":
         return "-1"
-    if c and c[0] in "iu":
+    if builtin == "positiveInteger":
         return "1"
+    if builtin == "nonPositiveInteger":
+        return "-1" if k < 0.5 else "0"
+    if c and c[0] in "iu":
+        return "0" if k < 0.5 else "1"
     if c == "bool":
-        return "true"
+        return ["false", "true", "0", "1"][int(k * 4) % 4]
     if c in ("f32", "f64"):
-        return "1.5"
+        return "1.5" if k < 0.5 else "0"
     return None
 
 
